@@ -444,10 +444,11 @@ def main():
     elif thorough:
         cfgs = all_cfgs
     else:
-        # every (sym, listing) pair with alias sets 1 and 3, plus seed-chosen others; async alternates
-        cfgs = [(s, l, (s + l + i) % 2, k) for i, (s, l) in enumerate(((1, 1), (1, 0), (0, 1), (0, 0))) for k in (1, 3)]
-        rest = [x for x in all_cfgs if x not in cfgs]
-        cfgs += rng.sample(rest, 6)
+        # every (sym, listing) pair with alias sets 1 and 3 (sync and async alternate), plus seed-chosen others
+        cfgs = [(s, l, (i + j) % 2, k) for i, (s, l) in enumerate(((1, 1), (1, 0), (0, 1), (0, 0))) for j, k in enumerate((1, 3))]
+        for s_ in (1, 0):
+            rest = [x for x in all_cfgs if x not in cfgs and x[0] == s_]
+            cfgs += rng.sample(rest, 3)
     nreq = 500 if thorough else 320
     ncidr = 300 if thorough else 200
     dist = {"404": 0, "file": 0, "list": 0, "redirect": 0, "cidr-ok": 0, "cidr-none": 0}
